@@ -12,18 +12,9 @@ use dsi_bitstream::prelude::*;
 
 type Wr<E, W> = BufBitWriter<E, Rec<W, RN>>;
 
-/// up to 24 symbolic bytes
+/// up to 12 symbolic bytes (loop-free: no unwind bound involved)
 pub fn any_bytes<S: Src, const L: usize>(s: &mut S) -> [u8; L] {
-    assert!(L <= 24);
-    let a = any_array::<u8, S, 12>(s);
-    let b = any_array::<u8, S, 12>(s);
-    let mut out = [0u8; L];
-    let mut i = 0;
-    while i < L {
-        out[i] = if i < 12 { a[i] } else { b[i - 12] };
-        i += 1;
-    }
-    out
+    any_array::<u8, S, L>(s)
 }
 
 #[inline(always)]
